@@ -88,24 +88,21 @@ MC_ORACLE void h_outcome_results (void) {
 	}
 }
 
-static uint32_t rc_at_begin[MC_MAXF]; static int had_waiter[MC_MAXF];
+static uint32_t rc_at_begin[MC_MAXF];
+/* A thread that has no waiter record when its call begins gets one during the call, possibly from the free
+   pool with a remove_count left by its previous owner: the baseline is then taken when the record is adopted. */
+MC_ORACLE static void tls_adopted (int fiber, void *w) { rc_at_begin[fiber] = *(volatile uint32_t *) &((waiter *) w)->remove_count; }
 MC_ORACLE void h_call_begin (void) {
 	int me = mc_self (); waiter *w;
 	if (me < 0) return;
+	mc_tls_listener = &tls_adopted;
 	w = (waiter *) mc_tls_waiter_of (me);
-	had_waiter[me] = (w != NULL);
 	rc_at_begin[me] = w != NULL ? *(volatile uint32_t *) &w->remove_count : 0;
 }
-MC_ORACLE int h_call_has_waited (int fiber) {
-	waiter *w = (waiter *) mc_tls_waiter_of (fiber);
-	if (w == NULL) return 0;
-	if (!had_waiter[fiber]) return *(volatile uint32_t *) &w->remove_count != 0;
-	return *(volatile uint32_t *) &w->remove_count != rc_at_begin[fiber];
-}
-
 /* how many times the fiber's waiter record was taken off a queue since h_call_begin() */
 MC_ORACLE unsigned h_call_dequeues (int fiber) {
 	waiter *w = (waiter *) mc_tls_waiter_of (fiber);
 	if (w == NULL) return 0;
-	return *(volatile uint32_t *) &w->remove_count - (had_waiter[fiber] ? rc_at_begin[fiber] : 0);
+	return *(volatile uint32_t *) &w->remove_count - rc_at_begin[fiber];
 }
+MC_ORACLE int h_call_has_waited (int fiber) { return h_call_dequeues (fiber) != 0; }
